@@ -6,7 +6,8 @@ import common as C
 from common import Failure, q, coq_list
 
 ID = "C15"
-GEN = ["gen_jackknife"]
+GEN = ["gen_jackknife", "gen_jackknife_methods"]
+EXTRA_PROPERTY_FILES = ["SrcJackknife"]     # Jackknife.py method bodies regenerated and proved equal to Model/Pool.v
 ALLOWED_AXIOMS = C.STD_REAL_AXIOMS
 MODEL_INDEPENDENT_OF_PROOFS = True      # Model/Pool.v contains no proofs
 TRUSTED = [
@@ -547,8 +548,12 @@ LEVEL_TEXT = ("Theorems (Coq): for every schedule (any assignment of the N tasks
               "summand are regenerated from the source); it scales with |c| for a homogeneous statistic and is invariant "
               "under shifts for the mean (any field of characteristic 0 / the reals); d < 1, fraction outside [0,1), N < 1 raise "
               "ValueError. The real multiprocessing pool is exercised in the correspondence only.")
-LEVEL_NOTE = ("Trusted: Coq kernel/vm_compute; translator gen_jackknife (ratexpr + textual comparison of the task path); hand "
-              "model Model/Pool.v validated by correspondence; the rng_sample oracle (random.seed/random.sample deterministic); "
+LEVEL_NOTE = ("Trusted: Coq kernel/vm_compute; translators gen_jackknife (ratexpr + textual comparison of the task path) and "
+              "gen_jackknife_methods (all nine method bodies of Jackknife.py regenerated on every run; runtime Model/JackknifeRt.v fixes "
+              "the meaning of np.delete/np.mean/random.sample/Pool.starmap = map in order on one fresh worker); hand "
+              "model Model/Pool.v proved equal to the regenerated methods (C15_source_*, Properties/SrcJackknife.v: __init__ followed by "
+              "compute_jackknife_estimates = Pool.jackknife for all arguments incl. which inputs are rejected with which class, under any "
+              "schedule that is a permutation of the tasks) and validated by correspondence; the rng_sample oracle (random.seed/random.sample deterministic); "
               "exact arithmetic instead of IEEE rounding. PARTIAL BY NATURE: the model cannot exhibit the OS scheduler, "
               "multiprocessing itself (fork, pickling, starmap chunking and ordering) or a generator shared between concurrently "
               "running tasks; schedule independence of the *real* pool rests on the perturbed runs (num_cores 1..16, "
